@@ -82,7 +82,11 @@ func extract(ctx context.Context, rs io.ReadSeeker, scanFunc func() osm.Scanner,
 				for obj := range objChan {
 					switch objType := obj.(type) {
 					case *osm.Node:
-						o.processNode(obj.(*osm.Node), keep, keepTags)
+						if o.processNode(obj.(*osm.Node), keep, keepTags) {
+							passMX.Lock()
+							needAnotherPass = true
+							passMX.Unlock()
+						}
 					case *osm.Way:
 						if o.processWay(obj.(*osm.Way), keep, keepTags) {
 							passMX.Lock()
@@ -270,7 +274,9 @@ func (o *Data) hasNeedRelation(id osm.RelationID) (has, need bool) {
 }
 
 // If the node has the tag we want, add it to the list.
-func (o *Data) processNode(n *osm.Node, keep KeepFunc, keepTags bool) {
+// Storing a new object requests another pass, because a keep function may
+// select objects based on what has already been stored (see KeepBounds).
+func (o *Data) processNode(n *osm.Node, keep KeepFunc, keepTags bool) (anotherPass bool) {
 	hasNode, needNode := o.hasNeedNode(n.ID)
 	if hasNode {
 		return
@@ -279,7 +285,9 @@ func (o *Data) processNode(n *osm.Node, keep KeepFunc, keepTags bool) {
 		o.nodeMX.Lock()
 		o.Nodes[n.ID] = copyNode(n, keepTags)
 		o.nodeMX.Unlock()
+		anotherPass = true
 	}
+	return
 }
 
 func (o *Data) processNodeNoCopy(n *Node, keep KeepFunc, keepTags bool) {
@@ -305,6 +313,7 @@ func (o *Data) processWay(w *osm.Way, keep KeepFunc, keepTags bool) (anotherPass
 		o.wayMX.Lock()
 		o.Ways[w.ID] = copyWay(w, keepTags)
 		o.wayMX.Unlock()
+		anotherPass = true
 		for _, n := range w.Nodes {
 			if _, needNode := o.hasNeedNode(n.ID); !needNode {
 				o.dependentNodeMX.Lock()
@@ -349,6 +358,7 @@ func (o *Data) processRelation(r *osm.Relation, keep KeepFunc, keepTags bool) (a
 		o.relationMX.Lock()
 		o.Relations[r.ID] = copyRelation(r, keepTags)
 		o.relationMX.Unlock()
+		anotherPass = true
 		for _, m := range r.Members {
 			switch m.Type {
 			case osm.TypeNode:
